@@ -486,7 +486,7 @@ int main(int argc, char** argv) {
 
   // ================================================================= Geohash
   {
-    int maxl = 3;
+    int maxl = T ? 4 : 3;
     ctx.bound("geohash.codes", "all codes of length 0.." + fmti(maxl) + " (32^k each), both cases, + structured length-18 codes");
     ctx.sub("geohash-codes");
     for (int len = 0; len <= maxl; ++len) {
@@ -582,7 +582,7 @@ int main(int argc, char** argv) {
     ctx.sub("georef-minutes");
     {
       const int cells[12][2] = {{0, 0}, {359, 179}, {180, 90}, {179, 89}, {14, 14}, {15, 15}, {345, 0}, {0, 179}, {200, 45}, {100, 100}, {359, 0}, {7, 170}};
-      for (int c = 0; c < (T ? 12 : 4); ++c) for (int mx = 0; mx < 60; ++mx) {
+      for (int c = 0; c < (T ? 12 : 4); ++c) for (int mx = 0; mx < 60; ++mx) {   // all 60 x 60 minute cells of 12 (quick 4) degree cells
         if (!ctx.take()) continue;
         for (int my = 0; my < 60; ++my) {
           check_code(ctx, 2, cells[c][0] * 60 + mx, cells[c][1] * 60 + my, 2, mx == my);
